@@ -236,6 +236,8 @@ func checkC14(w *World, r *Report) {
 	r.Rule("R14.3", "stream accept loop terminates with the session (no error spin)", 1)
 	r.Rule("R14.4", "per-connection handlers close what they accepted", 2)
 	r.Rule("R14.6", "a wrapper is marked closed only by its Close (else later closes are skipped and the descriptor leaks)", 4)
+	r.Rule("R14.8", "AcceptConnection closes the carrier on every failing return, unless the error says the carrier is closed already (a peer that left is not a closed carrier)", 1)
+	c14AcceptFailureClosesCarrier(w, r)
 	r.Rule("R14.7", "Close of a carrier wrapper never waits for the peer without a bound (goodbye frames and flushes need a deadline)", 5)
 	ruleCloseDoesNotWaitForPeer(w, r, "R14.7")
 	ruleClosedFlagOnlyByClose(w, r, "R14.6")
@@ -329,6 +331,8 @@ func checkC15(w *World, r *Report) {
 		// the mutex of the table of all DNS peers (a mutex field of the listener object), or of a server object
 		return strings.HasSuffix(fieldOwner(m), ".ServerDnsListener") || strings.HasPrefix(fieldOwner(m), "server.")
 	}, "every other peer that needs this lock (new sessions, closes, the pruner) waits as long as this one peer chooses")
+	r.Rule("R15.7", "no byte sequence of one peer's handshake can panic the process that serves all the others: every index / slice expression of the handshake parsers is proven in bounds", 2)
+	ruleHandshakeBounds(w, r, "R15.7")
 	r.Rule("R15.6", "every Lock in the DNS endpoint is released on every path out of the function (an early return with the table lock held locks out every other peer for good)", 10)
 	ruleLockPairing(w, r, "R15.6", dnsPkgFuncs(w))
 	r.Rule("R15.5", "no answer is written to a peer, and nothing else waits for one, while a lock shared by all peers of a DNS endpoint is held", 1)
@@ -409,6 +413,8 @@ func checkC17(w *World, r *Report) {
 	c01WriteCountsRule(w, r, "R17.7")
 	r.Rule("R17.8", "a deadline armed on a connection is disarmed in both directions before the connection lives on as a session (a left-over write deadline loses the target's answer and the end-of-stream)", 1)
 	ruleDeadlinePairing(w, r, "R17.8")
+	r.Rule("R17.11", "sequence and ack numbers of the DNS carrier are used only in wrap-safe ways (a transfer that crosses 65536 chunks still drains and ends)", 10)
+	ruleWrapSafe(w, r, "R17.11", dnsPkgFuncs(w))
 	r.Rule("R17.10", "a websocket read limit, if any, admits the largest message the tunnel's own Write sends (else a bulk transfer ends in what looks like a clean end-of-stream)", 1)
 	ruleWsReadLimit(w, r, "R17.10")
 	r.Rule("R17.9", "no connection is closed abortively: SO_LINGER is left at the system default everywhere", 1)
